@@ -317,6 +317,92 @@ pub fn add_versioned_ref(g: &mut Gen, root: usize, target: u32) -> bool {
     false
 }
 
+/// a chain of sub-element names below type `ty` (all valid in version `ver`) that ends in an element whose type is
+/// splittable in SOME version but NOT in `ver`, followed by the name of one of its sub-elements (valid in `ver`):
+/// a place where an element can get its own file membership although its parent is not a split point of the file's version
+fn find_foreign_split(ty: ElementType, ver: u32, depth: usize, rng: &mut SplitMix64) -> Option<(Vec<(ElementName, bool)>, (ElementName, bool))> {
+    let mut specs: Vec<(ElementName, ElementType, u32, u32)> = ty.sub_element_spec_iter().filter(|(_, _, m, _)| m & ver != 0).collect();
+    if !specs.is_empty() {
+        let k = rng.below(specs.len() as u64) as usize;
+        specs.rotate_left(k);
+    }
+    for (name, ct, _, named) in &specs {
+        if ct.splittable() != 0 && ct.splittable() & ver == 0 {
+            let kids: Vec<(ElementName, bool)> = ct.sub_element_spec_iter().filter(|(n, _, m, _)| m & ver != 0 && *n != ElementName::ShortName).map(|(n, _, _, nm)| (n, nm & ver != 0)).collect();
+            if !kids.is_empty() {
+                let kid = kids[rng.below(kids.len() as u64) as usize];
+                return Some((vec![(*name, named & ver != 0)], kid));
+            }
+        }
+    }
+    if depth == 0 {
+        return None;
+    }
+    for (name, ct, _, named) in &specs {
+        if *name == ElementName::ShortName || ct.is_ref() {
+            continue;
+        }
+        if let Some((mut chain, kid)) = find_foreign_split(*ct, ver, depth - 1, rng) {
+            chain.insert(0, (*name, named & ver != 0));
+            return Some((chain, kid));
+        }
+    }
+    None
+}
+
+/// below `root`: an element with its OWN file membership whose parent is a split point only in other versions
+pub fn add_foreign_split_member(g: &mut Gen, root: usize) -> bool {
+    let e = g.ex.handles[root].clone();
+    let Ok(ver) = e.min_version() else { return false };
+    let ver = ver as u32;
+    let found = find_foreign_split(e.element_type(), ver, 3, &mut g.rng);
+    let Some((chain, (kid, kid_named))) = found else { return false };
+    let mut cur = root;
+    for (name, named) in &chain {
+        let r = if *named {
+            let it = g.item_name();
+            g.push(Op::GetOrCreateNamed(cur, *name as u16, it))
+        } else {
+            g.push(Op::GetOrCreate(cur, *name as u16))
+        };
+        match ok_h(&r) {
+            Some(h) => cur = h,
+            None => return false,
+        }
+    }
+    // one or two sub-elements below the version-dependent split point, each restricted to one file
+    let nfiles = g.ex.files.len();
+    let mut done = false;
+    for _ in 0..(1 + g.rng.below(2)) {
+        let r = if kid_named {
+            let it = g.item_name();
+            g.push(Op::CreateNamed(cur, kid as u16, it))
+        } else {
+            g.push(Op::CreateSub(cur, kid as u16))
+        };
+        if let Some(k) = ok_h(&r) {
+            let m = g.ex.handles[k].model().ok();
+            let mine: Vec<usize> = (0..nfiles).filter(|f| g.ex.files[*f].model().ok() == m).collect();
+            if mine.len() >= 2 {
+                let f = mine[g.rng.below(mine.len() as u64) as usize];
+                if g.rng.below(2) == 0 {
+                    g.push(Op::RemoveFromFile(k, f));
+                } else {
+                    // restrict to one file: add to it, remove from the others
+                    g.push(Op::AddToFile(k, f));
+                    for o in &mine {
+                        if *o != f {
+                            g.push(Op::RemoveFromFile(k, *o));
+                        }
+                    }
+                }
+                done = true;
+            }
+        }
+    }
+    done
+}
+
 /// handle of the ELEMENTS container of some package of model `m` (created when missing)
 fn elements_of(g: &mut Gen, m: usize, pkg: &str) -> Option<usize> {
     let n = g.ex.names;
@@ -540,6 +626,18 @@ pub fn scenario(g: &mut Gen, k: u64) {
             let kind = *g.rng.pick(ELEMENT_KINDS);
             if let Some(x) = ok_h(&g.push(Op::CreateNamed(el, n.elidx(kind), b"x".to_vec()))) {
                 enrich(g, x, v2, 8);
+            }
+            // own membership below split points that exist only in other versions than the files' version
+            for ki in 0..ELEMENT_KINDS.len() {
+                let kind = ELEMENT_KINDS[(ki + g.rng.below(ELEMENT_KINDS.len() as u64) as usize) % ELEMENT_KINDS.len()];
+                if let Some(y) = ok_h(&g.push(Op::GetOrCreateNamed(el, n.elidx(kind), format!("s{}", ki).into_bytes()))) {
+                    if add_foreign_split_member(g, y) && g.rng.below(2) == 0 {
+                        break;
+                    }
+                }
+                if ki >= 3 {
+                    break;
+                }
             }
             let nfiles = g.ex.files.len();
             for _ in 0..3 {
